@@ -13,7 +13,7 @@
 (* and begin()..end() enumerates exactly db[r]; printAll / runAll write    *)
 (* db[r] of the output relations.  The parameters of all actions range     *)
 (* over constant sets, so TLC's state graph (-dump dot,actionlabels) names *)
-(* every edge by its call: Insert("e", <<1, 2>>), Contains("path", 3),     *)
+(* every edge by its call: Insert("e", 1), Contains("path", 3),            *)
 (* Size("path"), Iterate("path"), Run, PurgeInputRelations, ...            *)
 (*                                                                         *)
 (* Meaning of run(), read off the generated code (runFunction calls every  *)
@@ -42,7 +42,8 @@
 (* MODEL-DRIFT, not as a violation.                                        *)
 (*                                                                         *)
 (* A program (DatalogData.Programs[i]) is a Datalog.tla program plus       *)
-(*   univ  : input relation |-> seq of tuples that Insert may add          *)
+(*   univ  : input relation |-> seq of tuples that Insert may add (by      *)
+(*           index)                                                        *)
 (*   probe : relation |-> seq of tuples that Contains is asked about (by   *)
 (*           index)                                                        *)
 (*   files : input relation |-> seq of tuples in the fact file             *)
@@ -66,14 +67,14 @@ InRels == {r \in Rels : IsIn(r)}
 OutRels == {r \in Rels : IsOut(r)}
 IntRels == {r \in Rels : ~IsIn(r) /\ ~IsOut(r)}
 SeqSet(s) == {s[i] : i \in 1..Len(s)}
-Univ(r) == SeqSet(P.univ[r])
 Files(r) == SeqSet(P.files[r])
 \* relations read by some clause: they expire in some stratum and are cleared there when pruning is on
 Used == UNION {D!PosRels(P.clauses[i].body) \cup D!NegRels(P.clauses[i].body) : i \in 1..Len(P.clauses)}
 
 \* constant parameter spaces (over all programs; the actions guard what applies to the current one)
 AllRels == UNION {D!RelNames(Programs[i]) : i \in 1..Len(Programs)}
-AllIns == UNION {UNION {SeqSet(Programs[i].univ[r]) : r \in DOMAIN Programs[i].univ} : i \in 1..Len(Programs)}
+MaxUniv == CHOOSE n \in 0..64 : /\ \A i \in 1..Len(Programs) : \A r \in DOMAIN Programs[i].univ : Len(Programs[i].univ[r]) <= n
+                                /\ \E i \in 1..Len(Programs) : \E r \in DOMAIN Programs[i].univ : Len(Programs[i].univ[r]) = n
 MaxProbes == CHOOSE n \in 0..64 : /\ \A i \in 1..Len(Programs) : \A r \in DOMAIN Programs[i].probe : Len(Programs[i].probe[r]) <= n
                                   /\ \E i \in 1..Len(Programs) : \E r \in DOMAIN Programs[i].probe : Len(Programs[i].probe[r]) = n
 
@@ -94,8 +95,8 @@ Pruned(J) == Purged(J, {r \in Used : ~IsOut(r)})
 \* exact' : evaluating from J gave the model of J's inputs (trivially so when J holds nothing but inputs)
 ExactAfter(J, m) == IF OnlyInputs(J) = J THEN TRUE ELSE m.I = Fresh(J).I
 
-Insert(r, t) == /\ r \in InRels /\ t \in Univ(r)
-                /\ db' = [db EXCEPT ![r] = @ \cup {t}]
+Insert(r, i) == /\ r \in InRels /\ i \in 1..Len(P.univ[r])          \* inserts the tuple P.univ[r][i]
+                /\ db' = [db EXCEPT ![r] = @ \cup {P.univ[r][i]}]
                 /\ obs' = ObsOf(P, db') /\ UNCHANGED <<prog, exact>>
 Run == LET m == Eval(db) IN
        /\ db' = m.I
@@ -128,7 +129,7 @@ Init == /\ prog \in 1..Len(Programs)
         /\ exact = TRUE
         /\ obs = ObsOf(Programs[prog], db)
 
-Next == \/ \E r \in AllRels : \E t \in AllIns : Insert(r, t)
+Next == \/ \E r \in AllRels : \E i \in 1..MaxUniv : Insert(r, i)
         \/ Run \/ RunPrune \/ LoadAll \/ RunAll
         \/ PurgeInputRelations \/ PurgeOutputRelations \/ PurgeInternalRelations
         \/ \E r \in AllRels : \E i \in 1..MaxProbes : Contains(r, i)
@@ -144,19 +145,17 @@ TypeOK == /\ DOMAIN db = Rels
           /\ exact \in BOOLEAN
           /\ obs = ObsOf(P, db)
 \* Laws of the machine, for the evaluation m of the current state (one invariant so that TLC evaluates m once):
-\*  - the hand-written programs stay inside the defined value domain;
+\*  - the programs stay inside the defined value domain;
 \*  - run() only adds, and a second run() adds nothing;
-\*  - API insert + run on an otherwise empty object = the model of the program with those tuples as the EDB
-\*    (Datalog!ModelOf, what a file-based run computes);
-\*  - after an exact evaluation, purging outputs and internals and running again reproduces the result.
+\*  - after an exact evaluation (the result is the model of the inputs = what inserting them into a new object, or
+\*    loading them from files, and running gives), purging outputs and internals and running again reproduces it.
 Laws ==
     LET m == Eval(db)
-        f == Fresh(db)
-        e == [r \in InRels |-> db[r]]
+        f == IF OnlyInputs(db) = db THEN m ELSE Fresh(db)
     IN /\ ~m.o
        /\ \A r \in Rels : db[r] \subseteq m.I[r]
        /\ Eval(m.I).I = m.I
-       /\ f.I = D!ModelOf(P, e).I
        /\ (m.I = f.I /\ InRels \cap OutRels = {}) => Eval(Purged(m.I, OutRels \cup IntRels)).I = m.I
-       /\ m.I = f.I => Eval(Purged(m.I, IntRels)).I = m.I
+\* an object that holds only inputs evaluates to Datalog's model of the program on those inputs as the EDB
+FreshIsModel == OnlyInputs(db) = db => Eval(db).I = D!ModelOf(P, [r \in InRels |-> db[r]]).I
 =============================================================================
